@@ -98,8 +98,10 @@ Fixpoint run_ops (r : brr) (ops : list val) (hs : list Z) {struct ops} : option 
   end.
 (* ---- gslb cases: input [[7 subs retryMax crossRetry] ops], subs = [[name weight [[id confWeight] ...]] ...]
         ops [6 algo retry key flips] BalanceGslb.Balance (algo 1 WRR, 2 sticky, 4 WLC; req.RetryTime = retry),
-            [2 id b] SetAvail, [3 id d] connNum += d
-        observation of a Balance: [h r sub retryAfter [state of every sub-cluster ...]] ---- *)
+            [2 id b] SetAvail, [3 id d] connNum += d,
+            [7 [[sub weight] ...]] BalanceGslb.Reload, [8 [[sub [[id confWeight] ...]] ...]] BackendReload
+        observation of a Balance: [h r sub retryAfter [state of every sub-cluster ...]];
+        of Reload / BackendReload: [rejected? [[sub weight state] ...]] ---- *)
 Definition dec_gsub (v : val) : option gsub :=
   match v with
   | VL [VZ n; VZ w; c] => match dec_conf c with Some conf => Some (mkGsub n w (init conf)) | None => None end
@@ -108,7 +110,11 @@ Definition dec_gsub (v : val) : option gsub :=
 Inductive gop :=
 | GBal (algo retry : Z) (sc : script)
 | GAvail (id : Z) (b : bool)
-| GConn (id d : Z).
+| GConn (id d : Z)
+| GReload (g : list (Z * Z))
+| GBack (cb : list (Z * list (Z * Z))).
+Definition dec_subconf (v : val) : option (Z * list (Z * Z)) :=
+  match v with VL [VZ n; c] => match dec_conf c with Some conf => Some (n, conf) | None => None end | _ => None end.
 Definition dec_gop (v : val) : option gop :=
   match v with
   | VL [VZ 6; VZ algo; VZ retry; VB _; sc] =>
@@ -118,11 +124,25 @@ Definition dec_gop (v : val) : option gop :=
     end
   | VL [VZ 2; VZ id; VZ b] => Some (GAvail id (negb (b =? 0)))
   | VL [VZ 3; VZ id; VZ d] => Some (GConn id d)
+  | VL [VZ 7; g] => match dec_conf g with Some g' => if distinct (map fst g') then Some (GReload g') else None | None => None end
+  | VL [VZ 8; VL l] => match all_some (map dec_subconf l) with
+                      | Some cb => if distinct (map fst cb) then Some (GBack cb) else None
+                      | None => None end
   | _ => None
   end.
 Definition gmap_brr (f : brr -> brr) (c : gcluster) : gcluster :=
   mkGc (map (fun s => mkGsub (gname s) (gweight s) (f (gbrr s))) (gsubs c)) (gtotal c) (gsingle c) (gavail c) (grmax c) (gcross c).
 Definition enc_gstate (c : gcluster) : val := VL (map (fun s => enc_state (gbrr s)) (gsubs c)).
+(* after Reload / BackendReload: sub-cluster names, weights and lists in list order *)
+Definition enc_gstate_w (c : gcluster) : val :=
+  VL (map (fun s => VL [VZ (gname s); VZ (gweight s); enc_state (gbrr s)]) (gsubs c)).
+(* histories stay inside the modelled fragment: at most two sub-clusters of weight >= 0 (one cross-retry candidate) and
+   at most one new backend per sub-cluster and BackendReload (list order of new backends is map order in Go) *)
+Definition wf_gstate (c : gcluster) : bool := Nat.leb (length (filter (fun s => gweight s >=? 0) (gsubs c))) 2.
+Definition wf_gback (cb : list (Z * list (Z * Z))) (c : gcluster) : bool :=
+  forallb (fun s => match sub_conf_find (gname s) cb with
+                    | Some conf => Nat.leb (length (new_ids conf (backends (gbrr s)))) 1
+                    | None => true end) (gsubs c).
 Definition gstep (c : gcluster) (o : gop) (h : Z) : gcluster * val * option (Z * res) :=
   match o with
   | GBal algo retry sc =>
@@ -130,6 +150,8 @@ Definition gstep (c : gcluster) (o : gop) (h : Z) : gcluster * val * option (Z *
     (c', VL [VZ h; enc_res x; VZ sub; VZ rt; enc_gstate c'], Some (algo, x))
   | GAvail id b => (gmap_brr (set_dyn id (fun x => mkBe (bid x) (bw x) (bcur x) b (bcn x))) c, VZ 0, None)
   | GConn id d => (gmap_brr (set_dyn id (fun x => mkBe (bid x) (bw x) (bcur x) (bav x) (bcn x + d))) c, VZ 0, None)
+  | GReload g => let '(c', e) := greload g c in (c', VL [vbool e; enc_gstate_w c'], None)
+  | GBack cb => let c' := gbackend_reload cb c in (c', VL [VZ 0; enc_gstate_w c'], None)
   end.
 Fixpoint run_gops (c : gcluster) (ops : list val) (hs : list Z) {struct ops} : option (list (val * option (Z * res))) :=
   match ops with
@@ -140,7 +162,12 @@ Fixpoint run_gops (c : gcluster) (ops : list val) (hs : list Z) {struct ops} : o
     | Some o =>
       let h := match o with GBal _ _ _ => hd 0 hs | _ => 0 end in
       let hs' := match o with GBal _ _ _ => tl hs | _ => hs end in
+      if negb (match o with GBack cb => wf_gback cb c | _ => true end) then None else
       let '(c', obs, x) := gstep c o h in
+      if negb (wf_gstate c') then None else
+      (* a cross retry with two candidates is a random choice in Go: the model stops there (code 99) and the rest of
+         the history is not compared *)
+      if (match x with Some (_, RErr c99) => c99 =? 99 | _ => false end) then Some [(obs, x)] else
       match run_gops c' rest hs' with Some l => Some ((obs, x) :: l) | None => None end
     end
   end.
@@ -172,7 +199,7 @@ Definition run_C05 (i : val) : val :=
 (* hashes reported by the implementation side, in op order *)
 Definition hashes_of (o : val) : list Z :=
   match o with
-  | VL l => flat_map (fun v => match v with VL (VZ h :: _ :: _) => [h] | _ => [] end) l
+  | VL l => flat_map (fun v => match v with VL (VZ h :: _ :: _ :: _) => [h] | _ => [] end) l
   | _ => []
   end.
 (* a model result [0 id1 id2 ..] accepts the observation [0 id] when id is one of them *)
@@ -192,9 +219,17 @@ Fixpoint all2 (f : val -> val -> bool) (a b : list val) : bool :=
   | x :: a', y :: b' => f x y && all2 f a' b'
   | _, _ => false
   end.
+Definition is_ambig (m : val) : bool :=
+  match m with VL (_ :: VL [VZ (-1); VZ 99] :: _) => true | _ => false end.
+Fixpoint all2m (a b : list val) : bool :=
+  match a, b with
+  | [], [] => true
+  | x :: a', y :: b' => if is_ambig x then true else obs_agree x y && all2m a' b'
+  | _, _ => false
+  end.
 Definition agree_C05 (i o : val) : bool :=
   match run_with i (hashes_of o), o with
-  | Some l, VL ol => all2 obs_agree (map fst l) ol
+  | Some l, VL ol => all2m (map fst l) ol
   | None, _ => val_eqb o (VErr 0)
   | _, _ => false
   end.
